@@ -41,6 +41,16 @@ Definition head_len (w : width) : N :=
 
 Definition nonempty (l : list bytes) : list bytes := filter (fun b => negb (len b =? 0)) l.
 
+(* every text string (and every chunk of a chunked one) inside e is valid UTF-8 *)
+Fixpoint utf8_ok (e : enc) : bool :=
+  match e with
+  | EText _ b => utf8_valid b
+  | ETextI cs => forallb (fun c => utf8_valid (snd c)) cs
+  | EArray _ es | EArrayI es | EMap _ es | EMapI es => forallb utf8_ok es
+  | ETag _ _ e' => utf8_ok e'
+  | _ => true
+  end.
+
 Definition spec_acc (a : acc) (e : enc) : expect :=
   match a with
   | AU8 => int_acc 0 255 mkN e
@@ -99,5 +109,5 @@ Definition spec_acc (a : acc) (e : enc) : expect :=
             | _ => XErr
             end
   | ATag => match e with ETag w t _ => XOk (VN t) (head_len w) | _ => XErr end
-  | ASkip => XOk VU (len (ser e))
+  | ASkip => if utf8_ok e then XOk VU (len (ser e)) else XAny    (* skip validates text (str_iter) *)
   end.
